@@ -228,6 +228,14 @@ func (r *Report) Finish(verifDir string, known KnownFile, only *Obligation) int 
 	for k, v := range r.Extra {
 		cov[k] = v
 	}
+	if r.Assumptions == nil {
+		r.Assumptions = []string{}
+	}
+	r.Assumptions = append(r.Assumptions, "go/packages type-checks /repo's working tree without errors (otherwise the check fails)", "std functions behave as documented; exported operations receive values produced by the repo's constructors")
+	if r.Trusted == nil {
+		r.Trusted = []string{"Go type checker and go/ssa (x/tools v0.29.0)", "Go standard library"}
+		cov["trusted_base"] = r.Trusted
+	}
 	seed := 0
 	fmt.Sscanf(os.Getenv("VERIF_SEED"), "%d", &seed)
 	ev := map[string]any{
